@@ -468,9 +468,9 @@ def run_impl_bisect(ctx, harness, cases, timeout, env=None, tag="impl"):
             break
         if not missing:
             # died after the last case (e.g. leak report at exit)
-            crashes.append((None, rc, err[-1500:]))
+            crashes.append((None, rc, err[:2500] + "\n...\n" + err[-800:] if len(err) > 3300 else err))
             break
-        crashes.append((missing[0], rc, err[-1500:]))
+        crashes.append((missing[0], rc, err[:2500] + "\n...\n" + err[-800:] if len(err) > 3300 else err))
         todo = missing[1:]
     return res, orc, crashes
 
